@@ -97,38 +97,45 @@ package verifspec
 //@   loop 1 invariant forall(k, 0, $i1, typeis(old(file.Decls)[k], "*go/ast.FuncDecl") && !has(overrides, funcKeyOf(ref(old(file.Decls)[k]))) && recvKeyLen(ref(old(file.Decls)[k])) > 0 && has(overrides, recvKeyOf(ref(old(file.Decls)[k]))) && overrides[recvKeyOf(ref(old(file.Decls)[k]))].purgeMethods ==> file.Decls[k] == nil && anyChange)
 //@   loop 1 invariant forall(k, 0, $i1, typeis(old(file.Decls)[k], "*go/ast.FuncDecl") && !has(overrides, funcKeyOf(ref(old(file.Decls)[k]))) && !(recvKeyLen(ref(old(file.Decls)[k])) > 0 && has(overrides, recvKeyOf(ref(old(file.Decls)[k]))) && overrides[recvKeyOf(ref(old(file.Decls)[k]))].purgeMethods) ==> file.Decls[k] == old(file.Decls)[k])
 //@   loop 1 invariant forall(k, $i1, len(file.Decls), file.Decls[k] == old(file.Decls)[k])
+//@   loop 1 invariant forall(k, 0, $i1, typeis(old(file.Decls)[k], "*go/ast.FuncDecl") && has(overrides, funcKeyOf(ref(old(file.Decls)[k]))) && (overrides[funcKeyOf(ref(old(file.Decls)[k]))].keepOriginal || overrides[funcKeyOf(ref(old(file.Decls)[k]))].overrideSignature != nil) ==> file.Decls[k] == old(file.Decls)[k])
 //@   loop 2 invariant 0 <= $i1 && $i1 < len(file.Decls) && len(file.Decls) == len(old(file.Decls)) && !finalized && !pruned
 //@   loop 2 invariant forall(k, 0, $i1, typeis(old(file.Decls)[k], "*go/ast.FuncDecl") && has(overrides, funcKeyOf(ref(old(file.Decls)[k]))) ==> anyChange)
 //@   loop 2 invariant forall(k, 0, $i1, typeis(old(file.Decls)[k], "*go/ast.FuncDecl") && has(overrides, funcKeyOf(ref(old(file.Decls)[k]))) && !overrides[funcKeyOf(ref(old(file.Decls)[k]))].keepOriginal && overrides[funcKeyOf(ref(old(file.Decls)[k]))].overrideSignature == nil ==> file.Decls[k] == nil)
 //@   loop 2 invariant forall(k, 0, $i1, typeis(old(file.Decls)[k], "*go/ast.FuncDecl") && !has(overrides, funcKeyOf(ref(old(file.Decls)[k]))) && recvKeyLen(ref(old(file.Decls)[k])) > 0 && has(overrides, recvKeyOf(ref(old(file.Decls)[k]))) && overrides[recvKeyOf(ref(old(file.Decls)[k]))].purgeMethods ==> file.Decls[k] == nil && anyChange)
 //@   loop 2 invariant forall(k, 0, $i1, typeis(old(file.Decls)[k], "*go/ast.FuncDecl") && !has(overrides, funcKeyOf(ref(old(file.Decls)[k]))) && !(recvKeyLen(ref(old(file.Decls)[k])) > 0 && has(overrides, recvKeyOf(ref(old(file.Decls)[k]))) && overrides[recvKeyOf(ref(old(file.Decls)[k]))].purgeMethods) ==> file.Decls[k] == old(file.Decls)[k])
 //@   loop 2 invariant forall(k, $i1, len(file.Decls), file.Decls[k] == old(file.Decls)[k])
+//@   loop 2 invariant forall(k, 0, $i1, typeis(old(file.Decls)[k], "*go/ast.FuncDecl") && has(overrides, funcKeyOf(ref(old(file.Decls)[k]))) && (overrides[funcKeyOf(ref(old(file.Decls)[k]))].keepOriginal || overrides[funcKeyOf(ref(old(file.Decls)[k]))].overrideSignature != nil) ==> file.Decls[k] == old(file.Decls)[k])
 //@   loop 3 invariant 0 <= $i1 && $i1 < len(file.Decls) && len(file.Decls) == len(old(file.Decls)) && !finalized && !pruned
 //@   loop 3 invariant forall(k, 0, $i1, typeis(old(file.Decls)[k], "*go/ast.FuncDecl") && has(overrides, funcKeyOf(ref(old(file.Decls)[k]))) ==> anyChange)
 //@   loop 3 invariant forall(k, 0, $i1, typeis(old(file.Decls)[k], "*go/ast.FuncDecl") && has(overrides, funcKeyOf(ref(old(file.Decls)[k]))) && !overrides[funcKeyOf(ref(old(file.Decls)[k]))].keepOriginal && overrides[funcKeyOf(ref(old(file.Decls)[k]))].overrideSignature == nil ==> file.Decls[k] == nil)
 //@   loop 3 invariant forall(k, 0, $i1, typeis(old(file.Decls)[k], "*go/ast.FuncDecl") && !has(overrides, funcKeyOf(ref(old(file.Decls)[k]))) && recvKeyLen(ref(old(file.Decls)[k])) > 0 && has(overrides, recvKeyOf(ref(old(file.Decls)[k]))) && overrides[recvKeyOf(ref(old(file.Decls)[k]))].purgeMethods ==> file.Decls[k] == nil && anyChange)
 //@   loop 3 invariant forall(k, 0, $i1, typeis(old(file.Decls)[k], "*go/ast.FuncDecl") && !has(overrides, funcKeyOf(ref(old(file.Decls)[k]))) && !(recvKeyLen(ref(old(file.Decls)[k])) > 0 && has(overrides, recvKeyOf(ref(old(file.Decls)[k]))) && overrides[recvKeyOf(ref(old(file.Decls)[k]))].purgeMethods) ==> file.Decls[k] == old(file.Decls)[k])
 //@   loop 3 invariant forall(k, $i1, len(file.Decls), file.Decls[k] == old(file.Decls)[k])
+//@   loop 3 invariant forall(k, 0, $i1, typeis(old(file.Decls)[k], "*go/ast.FuncDecl") && has(overrides, funcKeyOf(ref(old(file.Decls)[k]))) && (overrides[funcKeyOf(ref(old(file.Decls)[k]))].keepOriginal || overrides[funcKeyOf(ref(old(file.Decls)[k]))].overrideSignature != nil) ==> file.Decls[k] == old(file.Decls)[k])
 //@   loop 4 invariant 0 <= $i1 && $i1 < len(file.Decls) && len(file.Decls) == len(old(file.Decls)) && !finalized && !pruned
 //@   loop 4 invariant forall(k, 0, $i1, typeis(old(file.Decls)[k], "*go/ast.FuncDecl") && has(overrides, funcKeyOf(ref(old(file.Decls)[k]))) ==> anyChange)
 //@   loop 4 invariant forall(k, 0, $i1, typeis(old(file.Decls)[k], "*go/ast.FuncDecl") && has(overrides, funcKeyOf(ref(old(file.Decls)[k]))) && !overrides[funcKeyOf(ref(old(file.Decls)[k]))].keepOriginal && overrides[funcKeyOf(ref(old(file.Decls)[k]))].overrideSignature == nil ==> file.Decls[k] == nil)
 //@   loop 4 invariant forall(k, 0, $i1, typeis(old(file.Decls)[k], "*go/ast.FuncDecl") && !has(overrides, funcKeyOf(ref(old(file.Decls)[k]))) && recvKeyLen(ref(old(file.Decls)[k])) > 0 && has(overrides, recvKeyOf(ref(old(file.Decls)[k]))) && overrides[recvKeyOf(ref(old(file.Decls)[k]))].purgeMethods ==> file.Decls[k] == nil && anyChange)
 //@   loop 4 invariant forall(k, 0, $i1, typeis(old(file.Decls)[k], "*go/ast.FuncDecl") && !has(overrides, funcKeyOf(ref(old(file.Decls)[k]))) && !(recvKeyLen(ref(old(file.Decls)[k])) > 0 && has(overrides, recvKeyOf(ref(old(file.Decls)[k]))) && overrides[recvKeyOf(ref(old(file.Decls)[k]))].purgeMethods) ==> file.Decls[k] == old(file.Decls)[k])
 //@   loop 4 invariant forall(k, $i1, len(file.Decls), file.Decls[k] == old(file.Decls)[k])
+//@   loop 4 invariant forall(k, 0, $i1, typeis(old(file.Decls)[k], "*go/ast.FuncDecl") && has(overrides, funcKeyOf(ref(old(file.Decls)[k]))) && (overrides[funcKeyOf(ref(old(file.Decls)[k]))].keepOriginal || overrides[funcKeyOf(ref(old(file.Decls)[k]))].overrideSignature != nil) ==> file.Decls[k] == old(file.Decls)[k])
 //@   loop 5 invariant 0 <= $i1 && $i1 < len(file.Decls) && len(file.Decls) == len(old(file.Decls)) && !finalized && !pruned
 //@   loop 5 invariant forall(k, 0, $i1, typeis(old(file.Decls)[k], "*go/ast.FuncDecl") && has(overrides, funcKeyOf(ref(old(file.Decls)[k]))) ==> anyChange)
 //@   loop 5 invariant forall(k, 0, $i1, typeis(old(file.Decls)[k], "*go/ast.FuncDecl") && has(overrides, funcKeyOf(ref(old(file.Decls)[k]))) && !overrides[funcKeyOf(ref(old(file.Decls)[k]))].keepOriginal && overrides[funcKeyOf(ref(old(file.Decls)[k]))].overrideSignature == nil ==> file.Decls[k] == nil)
 //@   loop 5 invariant forall(k, 0, $i1, typeis(old(file.Decls)[k], "*go/ast.FuncDecl") && !has(overrides, funcKeyOf(ref(old(file.Decls)[k]))) && recvKeyLen(ref(old(file.Decls)[k])) > 0 && has(overrides, recvKeyOf(ref(old(file.Decls)[k]))) && overrides[recvKeyOf(ref(old(file.Decls)[k]))].purgeMethods ==> file.Decls[k] == nil && anyChange)
 //@   loop 5 invariant forall(k, 0, $i1, typeis(old(file.Decls)[k], "*go/ast.FuncDecl") && !has(overrides, funcKeyOf(ref(old(file.Decls)[k]))) && !(recvKeyLen(ref(old(file.Decls)[k])) > 0 && has(overrides, recvKeyOf(ref(old(file.Decls)[k]))) && overrides[recvKeyOf(ref(old(file.Decls)[k]))].purgeMethods) ==> file.Decls[k] == old(file.Decls)[k])
 //@   loop 5 invariant forall(k, $i1, len(file.Decls), file.Decls[k] == old(file.Decls)[k])
+//@   loop 5 invariant forall(k, 0, $i1, typeis(old(file.Decls)[k], "*go/ast.FuncDecl") && has(overrides, funcKeyOf(ref(old(file.Decls)[k]))) && (overrides[funcKeyOf(ref(old(file.Decls)[k]))].keepOriginal || overrides[funcKeyOf(ref(old(file.Decls)[k]))].overrideSignature != nil) ==> file.Decls[k] == old(file.Decls)[k])
 //@   loop 6 invariant 0 <= $i1 && $i1 < len(file.Decls) && len(file.Decls) == len(old(file.Decls)) && !finalized && !pruned
 //@   loop 6 invariant forall(k, 0, $i1, typeis(old(file.Decls)[k], "*go/ast.FuncDecl") && has(overrides, funcKeyOf(ref(old(file.Decls)[k]))) ==> anyChange)
 //@   loop 6 invariant forall(k, 0, $i1, typeis(old(file.Decls)[k], "*go/ast.FuncDecl") && has(overrides, funcKeyOf(ref(old(file.Decls)[k]))) && !overrides[funcKeyOf(ref(old(file.Decls)[k]))].keepOriginal && overrides[funcKeyOf(ref(old(file.Decls)[k]))].overrideSignature == nil ==> file.Decls[k] == nil)
 //@   loop 6 invariant forall(k, 0, $i1, typeis(old(file.Decls)[k], "*go/ast.FuncDecl") && !has(overrides, funcKeyOf(ref(old(file.Decls)[k]))) && recvKeyLen(ref(old(file.Decls)[k])) > 0 && has(overrides, recvKeyOf(ref(old(file.Decls)[k]))) && overrides[recvKeyOf(ref(old(file.Decls)[k]))].purgeMethods ==> file.Decls[k] == nil && anyChange)
 //@   loop 6 invariant forall(k, 0, $i1, typeis(old(file.Decls)[k], "*go/ast.FuncDecl") && !has(overrides, funcKeyOf(ref(old(file.Decls)[k]))) && !(recvKeyLen(ref(old(file.Decls)[k])) > 0 && has(overrides, recvKeyOf(ref(old(file.Decls)[k]))) && overrides[recvKeyOf(ref(old(file.Decls)[k]))].purgeMethods) ==> file.Decls[k] == old(file.Decls)[k])
 //@   loop 6 invariant forall(k, $i1, len(file.Decls), file.Decls[k] == old(file.Decls)[k])
+//@   loop 6 invariant forall(k, 0, $i1, typeis(old(file.Decls)[k], "*go/ast.FuncDecl") && has(overrides, funcKeyOf(ref(old(file.Decls)[k]))) && (overrides[funcKeyOf(ref(old(file.Decls)[k]))].keepOriginal || overrides[funcKeyOf(ref(old(file.Decls)[k]))].overrideSignature != nil) ==> file.Decls[k] == old(file.Decls)[k])
 //@   oncall finalizeRemovals: assert forall(k, 0, len(file.Decls), typeis(old(file.Decls)[k], "*go/ast.FuncDecl") && has(overrides, funcKeyOf(ref(old(file.Decls)[k]))) && !overrides[funcKeyOf(ref(old(file.Decls)[k]))].keepOriginal && overrides[funcKeyOf(ref(old(file.Decls)[k]))].overrideSignature == nil ==> file.Decls[k] == nil)
 //@   oncall finalizeRemovals: assert forall(k, 0, len(file.Decls), typeis(old(file.Decls)[k], "*go/ast.FuncDecl") && !has(overrides, funcKeyOf(ref(old(file.Decls)[k]))) && recvKeyLen(ref(old(file.Decls)[k])) > 0 && has(overrides, recvKeyOf(ref(old(file.Decls)[k]))) && overrides[recvKeyOf(ref(old(file.Decls)[k]))].purgeMethods ==> file.Decls[k] == nil)
 //@   oncall finalizeRemovals: assert forall(k, 0, len(file.Decls), typeis(old(file.Decls)[k], "*go/ast.FuncDecl") && !has(overrides, funcKeyOf(ref(old(file.Decls)[k]))) && !(recvKeyLen(ref(old(file.Decls)[k])) > 0 && has(overrides, recvKeyOf(ref(old(file.Decls)[k]))) && overrides[recvKeyOf(ref(old(file.Decls)[k]))].purgeMethods) ==> file.Decls[k] == old(file.Decls)[k])
+//@   oncall finalizeRemovals: assert forall(k, 0, len(file.Decls), typeis(old(file.Decls)[k], "*go/ast.FuncDecl") && has(overrides, funcKeyOf(ref(old(file.Decls)[k]))) && (overrides[funcKeyOf(ref(old(file.Decls)[k]))].keepOriginal || overrides[funcKeyOf(ref(old(file.Decls)[k]))].overrideSignature != nil) ==> file.Decls[k] == old(file.Decls)[k])
 //@   ensures forall(k, 0, len(old(file.Decls)), typeis(old(file.Decls)[k], "*go/ast.FuncDecl") && has(overrides, funcKeyOf(ref(old(file.Decls)[k]))) ==> finalized && pruned)
 //@   ensures forall(k, 0, len(old(file.Decls)), typeis(old(file.Decls)[k], "*go/ast.FuncDecl") && !has(overrides, funcKeyOf(ref(old(file.Decls)[k]))) && recvKeyLen(ref(old(file.Decls)[k])) > 0 && has(overrides, recvKeyOf(ref(old(file.Decls)[k]))) && overrides[recvKeyOf(ref(old(file.Decls)[k]))].purgeMethods ==> finalized && pruned)
